@@ -39,6 +39,7 @@ fn run_job(job: &Sexp) -> String {
         "compile-hash" => circ::job_compile_hash(job),
         "builder" => builder::job_builder(job),
         "literal" => lit::job_literal(job),
+        "litapi" => lit::job_litapi(job),
         "exhaust" => exhaust::job_exhaust(job),
         "program" => prog::job_program(job),
         "lower" => prog::job_lower(job),
